@@ -26,10 +26,12 @@ ENCODED = ["twisted.persisted.dirdbm:DirDBM.__init__", "twisted.persisted.dirdbm
            "twisted.python.filepath:FilePath.remove", "twisted.python.filepath:FilePath.moveTo",
            "twisted.python.filepath:FilePath.restat", "twisted.python.filepath:FilePath.listdir",
            "twisted.python.filepath:FilePath.createDirectory"]
-BOUNDS = {"quick": {"ops": 2, "steps": 8}, "thorough": {"ops": 3, "steps": 12}}
+BOUNDS = {"quick": {"ops": 2, "steps": 8, "maxlen": 8192}, "thorough": {"ops": 3, "steps": 12, "maxlen": None}}
 B = {}
 BOUNDS_TEXT = ("two keys, each initially absent or present; <= ops operations from {set k0 v, set k1 v, delete "
-               "k0, delete k1}; every value an opaque byte string of any length >= 0 (empty included), every "
+               "k0, delete k1}; every value an opaque byte string of any length >= 0 (empty included; in the quick "
+               "tier at most `maxlen` = one file buffer, so that every value takes the buffered path; the thorough "
+               "tier also explores values larger than the buffer, which are written through), every "
                "written value distinguishable from every other; crash at every filesystem step 0..steps (more "
                "than any run makes) or no crash; torn write of every length; optional second crash inside the "
                "recovery run by DirDBM.__init__ on reopen; then a final clean reopen")
@@ -46,7 +48,10 @@ ASSUMPTIONS = ["fake filesystem contract: rename/remove/mkdir are atomic; a cras
                "its data; data and directory operations become durable in program order; after the crash no "
                "further call of the dead process reaches the disk (DirDBM.__setitem__ catches BaseException "
                "to remove the temporary file: that remove is part of the dead process and does not happen); "
-               "model validated against the real OS on a script of 50 calls on every run",
+               "model validated against the real OS on a script of 70 calls on every run",
+               "file objects are buffered as in CPython (8192 byte buffer; value lengths are unbounded, so both "
+               "the buffered and the write-through case are explored): data reaches the disk at flush/close or "
+               "when it no longer fits; a crash loses unflushed buffers and may tear the flush in progress",
                "under the solver a value is an opaque span (fakefs.Rope: value number + symbolic length; a torn "
                "write stores a shorter span of the same value; content access raises) and the name `bytes` "
                "inside twisted.persisted.dirdbm is bound to a class that compares equal to both bytes and Rope "
@@ -138,6 +143,7 @@ def crash_history(ops: List[int], na: int, nb: int, nc: int, ni: int, nj: int, i
     """
     pre: len(ops) <= B['ops'] and all(0 <= o <= 3 for o in ops)
     pre: na >= 0 and nb >= 0 and nc >= 0 and ni >= 0 and nj >= 0 and cut >= 0
+    pre: B['maxlen'] is None or (na <= B['maxlen'] and nb <= B['maxlen'] and nc <= B['maxlen'] and ni <= B['maxlen'] and nj <= B['maxlen'])
     pre: 0 <= init <= 3 and -1 <= crash_at <= B['steps'] and -1 <= crash2 <= 1
     post: _
     """
